@@ -54,6 +54,11 @@ def law_check(out, where, b, pre_charge, pilot, V, period, rate, post_charge):
             out.add("C14/ideal_law", "%s: charge(%r,%r,%r) at %r/%r kWh drew %r kW, law %r" % (where, pilot, V, period, pre_charge, cap, got, want))
         if want == (cap - pre_charge) / (period / 60.0):
             out.probe("fill_capped")
+        # "charges at" that power: the stored charge rises by exactly power x time
+        e_ = want * period / 60.0
+        if abs((post_charge - pre_charge) - e_) > 1e-8 * max(1.0, cap):
+            out.add("C14/ideal_law", "%s: charge(%r,%r,%r) at %r/%r kWh: law power %r kW for %r min is %r kWh, stored charge rose %r"
+                    % (where, pilot, V, period, pre_charge, cap, want, period, e_, post_charge - pre_charge))
     elif b.get("calc", "continuous") == "continuous":
         ts = b.get("transition_soc", 0.8)
         soc = pre_charge / cap
